@@ -46,10 +46,26 @@ def cdec(d):
     sign, digits, exp = d.as_tuple()
     n = int(''.join(map(str, digits)) or '0') * (-1 if sign else 1)
     return '(%s, %s)' % (cz(n), cz(exp))
+def cjv(v):
+    """A Python JSON value (no floats) as a Model/C07Json.v term; dict items in key order (sort_keys=True)."""
+    if v is None: return 'JNull'
+    if v is True: return '(JBool true)'
+    if v is False: return '(JBool false)'
+    if isinstance(v, int): return '(JInt %s)' % cz(v)
+    if isinstance(v, str): return '(JStr %s)' % cstrz(v)
+    if isinstance(v, (list, tuple)): return '(JList [%s])' % '; '.join(cjv(x) for x in v)
+    if isinstance(v, dict): return '(JDict [%s])' % '; '.join('(%s, %s)' % (cstrz(k), cjv(v[k])) for k in sorted(v))
+    raise ValueError('not in the modelled JSON subset: %r' % (v,))
+
+JSON_VALUES = [None, True, False, 0, 7, -7, 2 ** 70, -2 ** 63, '', 'x', 'quote" and \\ backslash', 'ctrl\x00\x01\x08\t\n\x0b\x0c\r\x1f end', '/slash', 'é∑😀 \x7f\x80\u2028',
+               [], [[]], [1, 2, 3], [None, True, 'a', [1, ['b']]], {}, {'a': 1}, {'b': [1, {'c': None}], 'a': 'x', 'é': {}, '': ''}, {'k"\\\n': ['v\t']},
+               [{'n': 1, 'tags': ['x'], 'opts': {'a': True}}, {'n': 0, 'tags': [], 'opts': {}}], {'a': {'b': {'c': {'d': [[[1]]]}}}}, [10, 200, -3000, 40000000000000000000000]]
+JSON_MALFORMED = ['', '[', '[1,]', '[1 2]', '{"a"}', '{"a":}', '{a:1}', 'nul', 'tru', '"abc', '"\\x"', '"\\u12"', '"raw\ncontrol"', '[1]]', '{"a":1,}', '-', '--1', '[,]', 'None', "'a'"]
+
 def cres(r, f):
     return '(RStr %s)' % cstrz(r) if isinstance(r, str) else '(RVal %s)' % f(r)
 
-HEADER = ('From Coq Require Import PrimFloat Uint63.\nRequire Import PonyV.Base.PyBase PonyV.Model.C07Base PonyV.Model.C07Fmt PonyV.Gen.C07Codec PonyV.Model.C07Codec PonyV.Model.C07Corr PonyV.Model.C07Float.\n'
+HEADER = ('From Coq Require Import PrimFloat Uint63.\nRequire Import PonyV.Base.PyBase PonyV.Model.C07Base PonyV.Model.C07Fmt PonyV.Gen.C07Codec PonyV.Model.C07Codec PonyV.Model.C07Corr PonyV.Model.C07Float PonyV.Model.C07Json.\n'
           'Open Scope Z_scope.\n')
 
 
@@ -267,8 +283,27 @@ def correspondence(ctx):
         add('ora_bool', 'chk_ora_bool %s %s' % (cbool(b), cz(z)), b, z)
         if ora.OraBoolConverter.sql2py(None, z) is not b: disagreements.append({'what': 'OraBoolConverter round trip', 'input': b})
 
+    # 17: json.dumps / json.loads as the Json and array converters call them
+    jc = conv['j']
+    for v in JSON_VALUES:
+        text = jc.val2dbval(v)
+        add('json_dumps', 'chk_dumps %s %s' % (cjv(v), cstrz(text)), repr(v)[:80], text[:120])
+        back = json.loads(text)
+        if back != v: disagreements.append({'what': 'json.loads(json.dumps(v)) != v in CPython', 'input': repr(v)[:100]})
+        add('json_loads', 'chk_loads %s (Some %s)' % (cstrz(text), cjv(back)), text[:120], repr(back)[:80])
+        nontrivial.add(('json', text[:60]))
+    for v in ([], [0], [1, 2 ** 63 - 1, -2 ** 63], ['a', 'é"\\', "q'"]):
+        text = conv['ia' if not v or isinstance(v[0], int) else 'sa'].val2dbval(v)
+        add('json_dumps', 'chk_dumps %s %s' % (cjv(v), cstrz(text)), repr(v), text)
+    for text in JSON_MALFORMED:
+        try: json.loads(text); ok = True
+        except ValueError: ok = False
+        if ok: disagreements.append({'what': 'a text of the malformed list is accepted by CPython json.loads', 'input': text}); continue
+        add('json_loads', 'chk_loads %s None' % cstrz(text), text, None)
+
     # 14: JsonConverter.validate / ArrayConverter.validate on plain values and on values tracked by this / another object / another attribute
     def ctv(w):
+        if w is not None and w[0] == 'W': return '(TWrapped %s)' % ctv(w[1])
         return '(TPlain 0)' if w is None else '(TTracked %d %d 0)' % w
     for kind, label, obj, attr, vw, kept, rw in impl.tracked_validate_cases():
         fn = 'chk_json_validate' if kind == 'json' else 'chk_array_validate'
